@@ -320,12 +320,21 @@ where
             let _ = T::try_parse_with(input, &mut stack, &mut tr);
             let err = tr.collect();
             match &err.variant {
-                pest_typed::error::ErrorVariant::CustomError { message } => message
-                    .split('\n')
-                    .skip(1)
-                    .map(|l| l.trim_start().to_string())
-                    .collect::<Vec<_>>()
-                    .join(";"),
+                pest_typed::error::ErrorVariant::CustomError { message } => {
+                    // head: the text of the reported line up to the reported location (hex), then the indentation of the
+                    // attempt lines (digits of the line number + 3)
+                    let mut it = message.split('\n');
+                    let first = it.next().unwrap_or("");
+                    let head = first.strip_suffix("^---").map(|h| hex(h)).unwrap_or_else(|| "?".to_string());
+                    let rest: Vec<&str> = it.collect();
+                    let indent = match rest.first() {
+                        Some(l) => format!("{}", l.len() - l.trim_start_matches(' ').len()),
+                        None => "-".to_string(),
+                    };
+                    let mut v = vec![format!("H:{}:{}", head, indent)];
+                    v.extend(rest.iter().map(|l| l.trim_start().to_string()));
+                    v.join(";")
+                }
                 _ => "?".to_string(),
             }
         })
@@ -333,6 +342,14 @@ where
         "-".to_string()
     };
     format!("P:{}|C:{}|FP:{}|FC:{}|TK:{}|RP:{}|X:{}#{:x}", p, c, fp, fc, tk, rp, x, errhash)
+}
+
+fn hex(s: &str) -> String {
+    if s.is_empty() {
+        "-".to_string()
+    } else {
+        s.bytes().map(|b| format!("{:02x}", b)).collect()
+    }
 }
 
 pub fn unhex(h: &str) -> String {
